@@ -1,4 +1,5 @@
 """C05 - new spans get correct identity, parentage, flags and trace state."""
+import re
 from ..ir import AnalysisBroken, strip_targs, qmatch
 from ..graph import Graph
 from ..expr import access_path, path_str, reaching_defs, norm_cond, origins, leaves, defs_in_node
@@ -253,6 +254,61 @@ def rule_r2(ck, prog, f, rule='C05.R2'):
     return g, rd, sink, vid
 
 
+def rule_r2_predicates(ck, prog, rule='C05.R2'):
+    """The atoms of the decision table are calls of IsRootSpan / GetSpan: they have to report what the Context stores."""
+    for (fname, key, alt, site) in (('trace::IsRootSpan', 'kIsRootSpanKey', 'bool', 'root-marker-is-stored-bool'),
+                                    ('trace::GetSpan', 'kSpanKey', 'shared_ptr<opentelemetry::trace::Span', 'span-is-stored-span')):
+        fs = [x for x in prog.functions(fname) if x.params and 'Context' in x.params[0]['t']]
+        if not fs:
+            raise AnalysisBroken('%s(Context) not found' % fname)
+        f = fs[0]
+        g = Graph(prog, f, inline=None, sync_lambdas=False)
+        rd = reaching_defs(g)
+        rets = g.returns()
+        bad = None
+        stored = 0
+        for rp in rets:
+            if rp.n.get('e', -1) is None or rp.n.get('e', -1) < 0:
+                continue
+            e = strip_casts(f, rp.n['e'])
+            if e['k'] == 'lit' and not e.get('v'):
+                continue   # literal false
+            calls = {}
+            for (sf, sn, sc) in origins(g, rd, f, rp.n['e'], rp.ctx):
+                for j in sf.subtree(sn['i']):
+                    m = sf.nodes[j]
+                    if m['k'] in ('call', 'construct'):
+                        calls[strip_targs(m.get('c', '')).rsplit('::', 1)[-1] + '|' + (m.get('ck') or '')] = (sf, m)
+            gets = [v for k, v in calls.items() if k.startswith('get|') and re.search(r'::get<[^,]*' + re.escape(alt), k)]
+            if gets:
+                # the variant read is the one GetValue(<key>) returned
+                (sf, m) = gets[0]
+                src_ok = False
+                for (of, on, oc) in origins(g, rd, sf, m['args'][0], rp.ctx):
+                    for j in of.subtree(on['i']):
+                        x = of.nodes[j]
+                        if x['k'] == 'call' and strip_targs(x.get('c', '')).endswith('Context::GetValue'):
+                            if any(of.nodes[k].get('k') == 'ref' and (of.nodes[k].get('qn') or '').endswith(key) for a in x['args'] for k in of.subtree(a)):
+                                src_ok = True
+                if not src_ok:
+                    bad = (rp, 'the value returned is not read from GetValue(%s)' % key)
+                elif not g.must_pass_edge(rp, lambda a, b, lab: bool(lab) and isinstance(lab[0], int) and lab[2] is True and
+                                          strip_targs(lab[1].nodes[norm_cond(lab[1], lab[0])[0]].get('c', '')).endswith('holds_alternative') and
+                                          norm_cond(lab[1], lab[0])[1]):
+                    bad = (rp, 'the stored alternative is read without holds_alternative having been true')
+                else:
+                    stored += 1
+                continue
+            if fname.endswith('GetSpan') and any(k.split('|')[0] == 'GetInvalid' for k in calls):
+                continue   # the invalid default span
+            bad = (rp, 'returns a value that is neither the stored %s nor the default: {%s}' % (alt.split('::')[-1], ','.join(sorted(k.split('|')[0] for k in calls)) or e['k']))
+        if bad is None and not stored:
+            bad = (rets[0] if rets else None, 'never returns the value stored under %s' % key)
+        ck.verdict(bad is None, rule, f, site, bad[0].n if bad and bad[0] else None,
+                   '%s returns the %s stored under %s (behind holds_alternative) or the default' % (fname.split('::')[-1], alt.split('::')[-1], key) if bad is None else
+                   '%s: %s — the parent decision table is evaluated on a different fact than the Context holds' % (fname.split('::')[-1], bad[1]))
+
+
 def rule_r3(ck, prog, f, g, rd, parent_vid, rule='C05.R3'):
     ctor = [p for p in g.calls('trace::SpanContext::SpanContext') if len(p.n.get('args', [])) >= 4]
     if not ctor:
@@ -430,7 +486,7 @@ def rule_r5(ck, prog, rule='C05.R5'):
 
 def run(ck, prog):
     ck.doc('C05.R1', 'bit provenance of the flags byte: sampled bit = sampler decision, only level-1 bits', 2)
-    ck.doc('C05.R2', 'parent precedence decision table (6 scenarios over restricted reaching definitions)', 6)
+    ck.doc('C05.R2', 'parent precedence decision table (6 scenarios over restricted reaching definitions); IsRootSpan/GetSpan report what the Context stores', 8)
     ck.doc('C05.R3', 'sources of trace id, span id, remote flag and trace state of the new context', 4)
     ck.doc('C05.R4', 'not-recording edge => NoopSpan with the same context; recording edge => SDK Span', 2)
     ck.doc('C05.R5', 'thread storage of the random engine, its seeding guard and the context stack; per-thread seed', 4)
@@ -442,6 +498,7 @@ def run(ck, prog):
     f = prog.function('sdk::trace::Tracer::StartSpan')
     rule_r1(ck, prog, f)
     g, rd, sink, vid = rule_r2(ck, prog, f)
+    rule_r2_predicates(ck, prog)
     sc = rule_r3(ck, prog, f, g, rd, vid)
     rule_r4(ck, prog, f, g, rd, sc)
     rule_r5(ck, prog)
